@@ -74,7 +74,7 @@ fn first_calls(rep: &Report, tier: Tier) {
                         acc.outcome(&format!("encap:{}:{}:{}", out.class(), regime(p, b), l.short().split(':').next().unwrap()));
                         if out.is_ok() {
                             acc.compared += 1;
-                            let i = FirstIn { pdu: &pd, frag_id: fid, pt, label: l, b, may_substitute: prior.may_substitute(l), exts: &[] };
+                            let i = FirstIn { pdu: &pd, frag_id: fid, pt, label: l, b, may_substitute: prior.may_substitute(l), exts: &[], mand: None };
                             let (fails, _) = wf_first(&i, &out, buf, sent, &FastCrc);
                             for (cl, txt) in fails {
                                 let sig = format!("C06|encap|{}|{}", cl, regime(p, b));
@@ -280,7 +280,7 @@ fn ext_calls(rep: &Report, tier: Tier) {
                         acc.outcome(&format!("encap_ext:{}:{}:chain{}", out.class(), regime(p, b), c.len()));
                         if out.is_ok() {
                             acc.compared += 1;
-                            let i = FirstIn { pdu: &pd, frag_id: 0xA7, pt, label: l, b, may_substitute: prior.may_substitute(l), exts: c };
+                            let i = FirstIn { pdu: &pd, frag_id: 0xA7, pt, label: l, b, may_substitute: prior.may_substitute(l), exts: c, mand: None };
                             let (fails, _) = wf_first(&i, &out, &buf, sent, &FastCrc);
                             for (cl, txt) in fails {
                                 let sig = format!("C06|encap_ext|{}|{}|{}", cl, out.class(), regime(p, b));
